@@ -158,7 +158,7 @@ NTT_RULE["C05"] = ("configurations (N=2^a<=N_ext=2^e incl. a=0 and a=e, object b
 NTT_REQUIRED = {
     "C03": ["cfg:NTT", "cfg:alias0", "cfg:alias1", "cfg:alias2", "cfg:blocked_even", "cfg:blocked_uneven", "cfg:caller_buffer", "cfg:even_effective_phases",
             "cfg:odd_effective_phases", "cfg:nblock_clamped", "cfg:nphase_clamped", "cfg:size_below_object_domain", "cfg:size_one", "cfg:size_zero_noop",
-            "cfg:zero_columns_noop", "cfg:identity_matrix_input", "cfg:boundary_input", "hook:revperm:branch0", "hook:revperm:branch2",
+            "cfg:zero_columns_noop", "cfg:identity_matrix_input", "cfg:boundary_input", "cfg:object_used_before", "hook:revperm:branch0", "hook:revperm:branch2",
             "hook:ntt_pass:writeback0", "hook:ntt_land:in_destination", "monitor:linearity_triples", "monitor:root_table_entries_checked",
             "omp_shim:regions_with_permuted_member_order", "omp:real_libgomp_processes", "oracle:naive_dft_columns", "oracle:recursive_fft_columns"],
     "C19": ["history:sequences", "history:extendPol_N_grows", "history:extendPol_N_shrinks", "history:large_then_small", "history:blocked_unblocked_switch",
@@ -167,7 +167,7 @@ NTT_REQUIRED = {
 }
 NTT_REQUIRED["C04"] = [c.replace("cfg:NTT", "cfg:INTT") for c in NTT_REQUIRED["C03"]] + ["hook:ntt_pass:writeback1", "roundtrip:INTT_of_NTT", "roundtrip:NTT_of_INTT"]
 NTT_REQUIRED["C05"] = ["cfg:extendPol", "cfg:alias0", "cfg:alias1", "cfg:blocked_even", "cfg:blocked_uneven", "cfg:caller_buffer", "cfg:even_effective_phases",
-                       "cfg:odd_effective_phases", "cfg:extend_same_size", "cfg:extend_onsite_zero_padding", "cfg:size_one", "cfg:boundary_input",
+                       "cfg:odd_effective_phases", "cfg:extend_same_size", "cfg:extend_onsite_zero_padding", "cfg:size_one", "cfg:boundary_input", "cfg:object_used_before",
                        "hook:revperm:branch0", "hook:revperm:branch1", "hook:revperm:branch2", "hook:revperm:branch3", "hook:ntt_pass:writeback2",
                        "hook:computeR", "monitor:linearity_triples", "monitor:root_table_entries_checked", "omp_shim:regions_with_permuted_member_order",
                        "omp:real_libgomp_processes"]
@@ -308,7 +308,7 @@ C12_RULE = ("workloads: NTT/INTT/extendPol configurations up to 2^6 (quick) / 2^
             "execution. evaluations = executions compared; distinct = workloads; all non-trivial (each enters >= 1 parallel region with > 1 member).")
 C12_REQUIRED = ["mode:threads", "mode:seq", "mode:libgomp", "hook:revperm:branch0", "hook:revperm:branch1", "hook:revperm:branch2", "hook:revperm:branch3",
                 "hook:ntt_pass:writeback0", "hook:ntt_pass:writeback1", "hook:ntt_pass:writeback2", "team:1", "team:2", "team:3", "team:4", "team:7", "team:8", "team:16", "team:33",
-                "team:nonpositive_thread_argument", "threads:runs_with_injected_startup_delays", "omp_shim:regions_with_permuted_member_order",
+                "team:nonpositive_thread_argument", "team:delivered_smaller_than_requested", "limit3:team:33", "threads:runs_with_injected_startup_delays", "omp_shim:regions_with_permuted_member_order",
                 "omp_shim:distinct_team_member_orders(capped_8192_per_process)", "tsan:processes_completed"] + \
     ["workload:" + w for w in ("NTT", "INTT", "extendPol", "merkletree_seq", "merkletree_avx", "merkletree_avx512", "merkletree", "merkletree_batch_seq",
                                "merkletree_batch_avx", "merkletree_batch_avx512", "merkletree_batch", "parcpy", "parSetZero")]
@@ -337,6 +337,11 @@ def check_races(prop, tier, seed, work, t0):
     res.merge(r)
     res.merge(vfw.run_shards(work, bins["races-shim512"], prop, tier, seed, NCPU, ["--mode", "seq", "--nofork"], tag="shim-seq", timeout=to))
     res.merge(vfw.run_shards(work, bins["races-prod512"], prop, tier, seed, 8, ["--mode", "libgomp", "--nofork"], tag="libgomp", timeout=to))
+    # libgomp delivering fewer threads than requested (thread limit 3)
+    r3 = vfw.run_shards(work, bins["races-prod512"], prop, tier, seed, 8, ["--mode", "libgomp", "--nofork", "--thin", "24"], tag="libgomp-limit3", timeout=to,
+                        env={"OMP_THREAD_LIMIT": "3"})
+    r3.counters = {("limit3:" + k if k.startswith("team:") else k): v for k, v in r3.counters.items()}
+    res.merge(r3)
     extra = {"tsan_reports": nrep, "tsan_distinct_reports": len(reports)}
     return vfw.finalize(prop, tier, seed, res, t0, C12_RULE, assumptions=ASSUME_COMMON + [
         "ThreadSanitizer sees all synchronisation because fork/join are plain pthread_create/pthread_join in the stand-in (stock libgomp is not used under TSan: its barriers are invisible to TSan)",
